@@ -120,7 +120,7 @@ def run(ctx):
         {'cap': 2, 'rnd': 0, 'progs': [[('B', [1, 2, 3]), ('P', 4), ('B', [5, 6]), ('F',)], [('Q', 3), ('I',), ('Q', 2), ('Y',)]], 'sched': [0] * 10 + [1] * 9 + [0] * 10 + [1] * 71},
         {'cap': 3, 'rnd': 1, 'progs': [[('P', 1), ('C', 2), ('E', 3), ('P', 4), ('Z',)], [('O',), ('Z',), ('Q', 2), ('O',)]], 'sched': [0] * 17 + [1] * 83},
     ]
-    n = 260 if ctx.quick else 8000
+    n = 200 if ctx.quick else 3000
     cases = fixed + [gen_case(r) for _ in range(n)]
     outs = ls_common.run_cases(exe, [line_of(c) for c in cases])
     ctx.phase('run')
@@ -141,7 +141,7 @@ def run(ctx):
     ctx.cov['rule'] = ('random producer/consumer scripts (1-6 ops each: single/batch push and pop in all API variants, size/empty/full) x 14 (Capacity, RoundUpToPowerOfTwo) configurations '
                        '(kBufferSize 2..17) x random or bursty schedules (100 decisions), one fork per case under vsched; non-trivial = some operation reached its full/empty test; '
                        'distinct = distinct (trace, results, final state) strings')
-    verdicts = ls_common.judge_parallel(ctx, 'From DV Require Import Base.Sched Model.SpscModel Model.C35Check.', 'judge_spsc', terms)
+    verdicts = ls_common.judge_parallel(ctx, 'From DV Require Import Base.Sched Model.SpscModel Model.C35Check.', 'judge_spsc', terms, shard_size=45)
     if verdicts is None:
         ctx.broken.append('correspondence L(C35): the model no longer evaluates')
         return
